@@ -150,7 +150,7 @@ func runCheck(o checkOpts) int {
 			continue // reported through bindErrors
 		}
 		blk.Bound = true
-		if blk.Trusted != "" {
+		if blk.Trusted != "" || blk.Opts["inline"] != "" {
 			continue
 		}
 		funcs = append(funcs, blk.Key)
